@@ -101,11 +101,14 @@ def unpack_attrs(a):
     attr_ref = yaml.load(a[attr_coords], Loader=FullLoader)
     attrs_to_ignore = ['spacing', 'name', '_dummy_channel', '_image_scaling']
     for attr in dict_without(attr_ref, attrs_to_ignore):
-        if attr_ref[attr]:
+        if attr_ref[attr] or isinstance(attr_ref[attr], dict):
+            # an empty dict marks a 0-d DataArray (e.g. the noise_sd that
+            # load_average computes for a single-channel image)
+            dims = list(attr_ref[attr].keys())
             new_attrs[attr] = xr.DataArray(
-                a[attr],
+                a[attr] if dims else np.reshape(a[attr], ()),
                 coords=attr_ref[attr],
-                dims=list(attr_ref[attr].keys()))
+                dims=dims)
         elif attr in a:
             new_attrs[attr] = yaml.safe_load(a[attr])
         else:
